@@ -96,6 +96,9 @@ def build(world):
                 return int_of_str(I, v)
             if kd == "none":
                 I.raise_builtin("TypeError", "int() argument must be a string or a number, not 'NoneType'")
+            if kd == "real":
+                x = smt.get_x(v.term)       # int(float) truncates toward zero (reals stand for floats: no inf / nan)
+                return Sym(VInt(z3.If(x >= 0, z3.ToInt(x), -z3.ToInt(-x))))
             raise OutOfReach("int() of symbolic %s" % kd)
         I.raise_builtin("TypeError", "int() argument")
     prim("int", int_new)
